@@ -5,6 +5,7 @@
 package copyx
 
 import (
+	"bytes"
 	"context"
 	"encoding/json"
 	"errors"
@@ -21,7 +22,10 @@ import (
 	"github.com/regclient/regclient/config"
 	"github.com/regclient/regclient/scheme/reg"
 	"github.com/regclient/regclient/types"
+	"github.com/regclient/regclient/types/descriptor"
 	"github.com/regclient/regclient/types/ref"
+
+	digest "github.com/opencontainers/go-digest"
 
 	"verifharness/imgen"
 	"verifharness/lib"
@@ -36,6 +40,7 @@ type Case struct {
 	Mount      bool
 	Prepop     int  // percentage of the closure already at the target
 	PrepopAll  bool // the identical image (incl. tag) is already there
+	DirPre     string `json:",omitempty"` // layout targets: "blobs" (a subset of the blobs), "all" (the identical image), "listed" (index.json lists the image under the tag but its manifest file is gone)
 	StaleTag   bool
 	Recursive  bool
 	Referrers  bool
@@ -232,6 +237,42 @@ func build(c Case, dir string) (*world, error) {
 			stale := []byte(`{"schemaVersion":2,"mediaType":"application/vnd.oci.image.manifest.v1+json","config":{"mediaType":"application/vnd.oci.empty.v1+json","digest":"sha256:44136fa355b3678a1146ad16f7e8649e94fb4fc21fe77e8310c060f61caaff8a","size":2},"layers":[],"annotations":{"stale":"` + uniq + `"}}`)
 			w.tgt.PutBlob(w.tgtRepo, []byte("{}"))
 			w.tag0 = w.tgt.PutManifest(w.tgtRepo, "copy", imgen.MTImage, stale)
+		}
+	}
+	if !w.tgtIsReg() && c.DirPre != "" {
+		tr, _ := ref.New(tgtName)
+		switch c.DirPre {
+		case "blobs":
+			for _, d := range imgen.SortedDigests(clo) {
+				n := clo[d]
+				if n.Kind == "blob" && r.Intn(100) < 50 {
+					if _, err := w.rc.BlobPut(ctx, tr, descriptor.Descriptor{Digest: digest.Digest(d), Size: int64(len(n.Body))}, bytes.NewReader(n.Body)); err != nil {
+						return nil, fmt.Errorf("setup blob put to target layout: %w", err)
+					}
+					w.tgt0[d] = true
+				}
+			}
+		case "all", "listed":
+			sr, _ := ref.New(srcName)
+			opts := []regclient.ImageOpts{}
+			if c.External {
+				opts = append(opts, regclient.ImageWithIncludeExternal())
+			}
+			if err := w.rc.ImageCopy(ctx, sr, tr, opts...); err != nil {
+				return nil, fmt.Errorf("setup copy to target layout: %w", err)
+			}
+			for d := range clo {
+				if _, ok := w.tgtHas(d); ok {
+					w.tgt0[d] = true
+				}
+			}
+			w.tag0 = w.g.Root.Digest
+			if c.DirPre == "listed" {
+				// what an interrupted directory sync or a pruned blob directory leaves: the index still lists the image
+				i := strings.IndexByte(w.g.Root.Digest, ':')
+				_ = os.Remove(filepath.Join(w.tgtDir, "blobs", w.g.Root.Digest[:i], w.g.Root.Digest[i+1:]))
+				delete(w.tgt0, w.g.Root.Digest)
+			}
 		}
 	}
 	if c.Pair == "samerepo" {
@@ -818,6 +859,9 @@ func genCase(r *lib.Rand, focus string) Case {
 	c.RefAPI = r.Bool()
 	c.Latency = r.Chance(60)
 	c.XGraph = r.Chance(30)
+	if (c.Pair == "reg2dir" || c.Pair == "dir2dir") && r.Chance(40) {
+		c.DirPre = lib.Pick(r, []string{"blobs", "blobs", "all", "listed"})
+	}
 	k := r.Intn(100)
 	faultShare := 25
 	if focus == "C04" {
@@ -885,6 +929,11 @@ func Run(focus string) func(o lib.Opts) {
 		if focus == "C03" {
 			for i := uint64(0); i < 12; i++ { // identical image already at the target, then a copy that wants the referrers too
 				all = append(all, Case{Kind: "copy", Seed: 4000 + i, Pair: "regreg", PrepopAll: true, Referrers: true, RefAPI: i%2 == 0})
+			}
+		}
+		if focus == "C03" {
+			for i := uint64(0); i < 6; i++ { // layout targets that already list the image: complete, or with the manifest file gone
+				all = append(all, Case{Kind: "copy", Seed: 4400 + i, Pair: lib.Pick(r, []string{"reg2dir", "dir2dir"}), DirPre: lib.Pick(r, []string{"listed", "listed", "all"}), Referrers: i%3 == 0, RefAPI: true})
 			}
 		}
 		if focus == "C03" || focus == "C04" {
